@@ -71,6 +71,10 @@ fn report(ctx: &mut Ctx, me: &str, findings: &[fq::Finding], witness: impl Fn() 
                 .replace("C05/fq-threaded/item-never-delivered", "C06/fq-threaded/available-item-never-returned")
                 .replace("C05/message-never-delivered", "C06/available-message-never-returned");
             ctx.violation_with(&sig, f.message.clone(), witness());
+        } else if me == "C05" && f.signature.starts_with("C14/") {
+            // history with abandoned recv calls: a message consumed by a dropped call and
+            // returned by none is not "consumed exactly once"
+            ctx.violation_with(&f.signature.replacen("C14/", "C05/with-abandoned-recv/", 1), f.message.clone(), witness());
         } else if me == "C05" && f.signature.contains("lost-wakeup") {
             // a message the receiver is never woken for is also a message that is
             // never consumed: C05 reports it under its own signature
@@ -475,7 +479,7 @@ fn run_case(me: &str, case: &Value, ctx: &mut Ctx) {
                 late_joiners: u(case, "late") as usize,
                 leavers: case["leavers"].as_bool().unwrap_or(false),
                 envelope_violations: case["violations"].as_bool().unwrap_or(false),
-                drops: false,
+                drops: case["drops"].as_bool().unwrap_or(false),
                 saturate: case["saturate"].as_bool().unwrap_or(false),
             };
             let out = sim::run(hist::run(&o));
@@ -504,9 +508,9 @@ fn common_cases(tier: Tier, seed: u64, me: &str) -> Vec<Value> {
     }
     v.push(json!({"kind": "fq_sweep", "k": 2, "depth": 4, "pre": false, "block": false, "first": 0}));
     for k in 1..=8usize {
-        v.push(json!({"kind": "fq_walks", "k": k, "len": 200, "n": tier.pick(600, 6000), "seed": mix(seed ^ k as u64), "saturate": false}));
+        v.push(json!({"kind": "fq_walks", "k": k, "len": 200, "n": tier.pick(600, 30_000), "seed": mix(seed ^ k as u64), "saturate": false}));
         if k >= 2 {
-            v.push(json!({"kind": "fq_walks", "k": k, "len": 300, "n": tier.pick(30, 300), "seed": mix(seed ^ 77 ^ k as u64), "saturate": true}));
+            v.push(json!({"kind": "fq_walks", "k": k, "len": 300, "n": tier.pick(30, 1500), "seed": mix(seed ^ 77 ^ k as u64), "saturate": true}));
         }
     }
     for sh in 0..tier.pick(8, 16) {
@@ -540,13 +544,16 @@ fn common_cases(tier: Tier, seed: u64, me: &str) -> Vec<Value> {
     // socket level
     for ty in FQ_TYPES {
         for n in 1..=6usize {
-            for k in 0..tier.pick(30, 300) {
-                v.push(json!({"kind": "hist", "ty": ty, "peers": n, "per": 5, "late": k % 3, "leavers": k % 2 == 1,
-                              "violations": me == "C05", "saturate": false, "seed": mix(seed ^ (k as u64) << 8 ^ n as u64)}));
+            for k in 0..tier.pick(30, 3000) {
+                // C05: in a fifth of the runs the application abandons recv calls (select!,
+                // timeouts): a consumed message still has to be returned by some call
+                let drops = me == "C05" && k % 5 == 4;
+                v.push(json!({"kind": "hist", "ty": ty, "peers": n, "per": 5, "late": k % 3, "leavers": k % 2 == 1, "drops": drops,
+                              "violations": me == "C05" && !drops, "saturate": false, "seed": mix(seed ^ (k as u64) << 8 ^ n as u64)}));
             }
         }
         for n in 2..=6usize {
-            for k in 0..tier.pick(3, 30) {
+            for k in 0..tier.pick(3, 300) {
                 v.push(json!({"kind": "hist", "ty": ty, "peers": n, "per": 60, "late": 0, "leavers": false,
                               "violations": false, "saturate": true, "seed": mix(seed ^ 0x5A7 ^ (k as u64) << 8 ^ n as u64)}));
             }
